@@ -526,7 +526,7 @@ func (itr *mergeSegmentIterator) next() (s0, s1 *rowSegment) {
 		return s0, nil
 	} else if s0.shard > s1.shard {
 		itr.a1 = itr.a1[1:]
-		return s1, nil
+		return nil, s1
 	}
 
 	// Return both if shards are equal.
